@@ -362,6 +362,21 @@ package silence
 //@   ensures [sets-untouched] sil != nil ==> sil.MatcherSets == old(sil.MatcherSets)
 //@   ensures [legacy-mirror] sil != nil && len(sil.MatcherSets) > 0 ==> sil.Matchers == sil.MatcherSets[0].Matchers
 //@   assigns sil.Matchers
+// C11/C09: what is written for one silence (snapshot record, gossip payload, full-state part): a copy - the stored
+// silence is not touched - that agrees with the stored silence on every field (ids, times, matcher sets, comment,
+// author, annotations, ... whatever fields the message has) except the legacy Matchers mirror, with the same
+// retention stamp; the bytes returned are the encoder's.
+//@ func marshalMeshSilence
+//@   props C11 C09
+//@   requires e != nil && e.Silence != nil
+//@   assumes len(e.Silence.MatcherSets) > 0 ==> e.Silence.MatcherSets[0] != nil
+//@   at call protodelim.MarshalTo assert [writes-a-complete-copy] typeis(arg1, *pb.MeshSilence) && unbox(arg1, *pb.MeshSilence) != e && unbox(arg1, *pb.MeshSilence).ExpiresAt == e.ExpiresAt && unbox(arg1, *pb.MeshSilence).Silence != nil && unbox(arg1, *pb.MeshSilence).Silence != e.Silence && samefields(unbox(arg1, *pb.MeshSilence).Silence, e.Silence, "Matchers")
+//@   ensures [stored-silence-untouched] samefields(e.Silence, old(e.Silence)) && e.Silence == old(e.Silence) && e.ExpiresAt == old(e.ExpiresAt)
+//@   ensures [encoded-once] count("protodelim.MarshalTo") == 1
+//@   ensures [error-means-no-bytes] ret1("protodelim.MarshalTo") != nil ==> result0 == nil && result1 == ret1("protodelim.MarshalTo")
+//@   ensures [success] ret1("protodelim.MarshalTo") == nil ==> result1 == nil
+//@   noeffect protodelim.MarshalTo
+
 //@ func postprocessUnmarshalledSilence
 //@   props C11
 //@   requires sil != nil
